@@ -498,6 +498,11 @@ func runJBufInt(t *testing.T, ops []string, o *Out) {
 					full[i] = byte(i)
 				}
 				cur = full[:n]
+				// `wire=<N>`: the datagram on the wire has N > blen bytes and the transport below cuts it to the
+				// buffer it is given (a UDP socket): what the interceptor receives is its first n = blen bytes
+				if w, okw := c18KV(m, "wire", 65537); okw && m["wire"] != "" && w > blen && n == blen {
+					cur = append(append([]byte(nil), full[:n]...), make([]byte, w-n)...)
+				}
 				curErr = nil
 				if ue == 1 {
 					curErr = errC18Upstream
@@ -1092,6 +1097,7 @@ func genJBufInt(r *Rng, tier string, idx int) Case {
 	ops := []string{}
 	obj := 0
 	base := c18Base(r, r.Chance(1, 4))
+	wr := NewRng(r.s ^ 0x77195E)
 	read := func(seq int) {
 		obj++
 		n := 16 + r.Pick(0, 0, 4, 100, 1184, r.Intn(1400))
@@ -1120,7 +1126,11 @@ func genJBufInt(r *Rng, tier string, idx int) Case {
 				blen = n
 			}
 		}
-		ops = append(ops, fmt.Sprintf("read seq=%d ts=%d obj=%d n=%d blen=%d uerr=%d", seq, 1000+obj, obj, n, blen, ue))
+		op := fmt.Sprintf("read seq=%d ts=%d obj=%d n=%d blen=%d uerr=%d", seq, 1000+obj, obj, n, blen, ue)
+		if (cl == "smallbuf" || cl == "sizes") && blen == n && n >= 16 && ue == 0 && wr.Chance(1, 4) {
+			op += fmt.Sprintf(" wire=%d", n+wr.Pick(1, 4, 12, 100, 1+wr.Intn(1400))) // the buffer is smaller than the datagram
+		}
+		ops = append(ops, op)
 	}
 	k := 50 + r.Range(0, 25)
 	if r.Chance(1, 8) {
